@@ -542,6 +542,23 @@ def r1_5(ctx, R):
             rets = [r for r in b.returns()]
             ok = bool(good) and all(
                 _must_pass_from_succ(b, ibb, rets, good, avoid=refusal))
+            if good and not ok:
+                # the marking may sit in a loop over a one-element range (`mark_ready(&shared, k..k + 1)`): decide on the
+                # feasible paths, a one-element range being exactly one iteration
+                from lib_flow import sensitive_paths, one_element_range_feasible
+                ok = True
+                nseg = 0
+                for kind_, pth, know in sensitive_paths(b, fl, 3):
+                    if kind_ != "return" or ibb not in pth or not one_element_range_feasible(b, fl, pth):
+                        continue
+                    i_ = pth.index(ibb)
+                    seg = pth[i_ + 1:]
+                    if any(x_ in refusal for x_ in seg):
+                        continue
+                    nseg += 1
+                    if not any(x_ in good for x_ in seg):
+                        ok = False
+                ok = ok and nseg > 0
             ctx.ob("R1.5", b, "mark-after-insert@%s" % _site_label(b, ibb), ok, b.loc(ibb),
                    "MARK sites fed by this insert: %s" % [b.loc(g) for g in good])
     ctx.floor("R1.5", "insert-callers", n, 1)
